@@ -133,6 +133,7 @@ class ApplyMixin:
         v = self.voc
         f = v.fn("sremove1", v.Val, v.Val, v.Val)
         s, x, y = z3.Consts("s x y", v.Val)
+        k = z3.Int("rmk")
         # remove first occurrence: length drops by one when present; other members survive; an element different
         # from x is a member afterwards iff it was before.  (x itself may remain if it occurred twice.)
         self.global_facts += [
@@ -140,6 +141,9 @@ class ApplyMixin:
             z3.ForAll([s, x, y], z3.Implies(z3.Not(v.pyeq(y, x)), v.shas(f(s, x), y) == v.shas(s, y)), patterns=[v.shas(f(s, x), y)]),
             z3.ForAll([s, x, y], z3.Implies(v.shas(f(s, x), y), v.shas(s, y)), patterns=[v.shas(f(s, x), y)]),
             z3.ForAll([s, x], z3.Implies(v.distinct(s), z3.And(v.distinct(f(s, x)), z3.Not(v.shas(f(s, x), x)))), patterns=[f(s, x)]),
+            # element-wise: the occurrence at sidx(s, x) is cut out, everything else keeps its relative place
+            z3.ForAll([s, x, k], z3.Implies(z3.And(v.shas(s, x), 0 <= k, k < v.slen(f(s, x))),
+                                            v.sat(f(s, x), k) == z3.If(k < v.sidx(s, x), v.sat(s, k), v.sat(s, k + 1))), patterns=[v.sat(f(s, x), k)]),
         ]
 
     def ensure_insert_axioms(self):
@@ -450,10 +454,22 @@ class ApplyMixin:
                     merged.env[name] = xs[0]
                     continue
                 try:
-                    cur = xs[-1]
-                    for c, x in zip(reversed(conds[:-1]), reversed(xs[:-1])):
-                        cur = self.ite(c, x, cur)
-                    merged.env[name] = cur
+                    if all(x.pt in NATIVE for x in xs) or any(x.t is None for x in xs) or max(ite_depth(x.t) for x in xs) < 99:
+                        cur = xs[-1]
+                        for c, x in zip(reversed(conds[:-1]), reversed(xs[:-1])):
+                            cur = self.ite(c, x, cur)
+                        merged.env[name] = cur
+                    else:
+                        # phi node as a fresh constant with one guarded equation per branch: no nesting of if-then-else terms
+                        pt = xs[0].pt if all(x.pt == xs[0].pt for x in xs) else "any"
+                        for a_ in xs[1:]:
+                            if pt == "any" and {a_.pt, xs[0].pt} != {a_.pt}:
+                                pt = self.join_pt(xs[0].pt, a_.pt) if len(xs) == 2 else "any"
+                        phi = self.fresh("phi_" + name.strip("$"))
+                        for c, x in zip(conds, xs):
+                            merged.facts.append(z3.Implies(z3.And(list(base.guards[:n]) + [c]), phi == self.box(x)))
+                        py = xs[0].py if all(x.py is xs[0].py for x in xs) else None
+                        merged.env[name] = SV(phi, pt, py=py)
                 except Untranslatable:
                     pass
         attrs = set()
@@ -461,10 +477,18 @@ class ApplyMixin:
             attrs |= set(o.st.heap)
         for a in attrs:
             hs = [o.st.heap.get(a, self.heap0(a, o.st.epoch)) for o in outs]
-            cur = hs[-1]
-            for c, h in zip(reversed(conds[:-1]), reversed(hs[:-1])):
-                cur = z3.If(c, h, cur) if not h.eq(cur) else cur
-            merged.heap[a] = cur
+            if all(h.eq(hs[0]) for h in hs):
+                merged.heap[a] = hs[0]
+            elif max(ite_depth(h) for h in hs) < 99:
+                cur = hs[-1]
+                for c, h in zip(reversed(conds[:-1]), reversed(hs[:-1])):
+                    cur = z3.If(c, h, cur) if not h.eq(cur) else cur
+                merged.heap[a] = cur
+            else:
+                phi = self.fresh(f"Hphi_{a}", z3.ArraySort(self.voc.Val, self.voc.Val))
+                for c, h in zip(conds, hs):
+                    merged.facts.append(z3.Implies(z3.And(list(base.guards[:n]) + [c]), phi == h))
+                merged.heap[a] = phi
         effs = [o.st.eff if o.st.eff is not None else z3.IntVal(0) for o in outs]
         cur = effs[-1]
         for c, e in zip(reversed(conds[:-1]), reversed(effs[:-1])):
@@ -501,8 +525,23 @@ class ApplyMixin:
             stack.pop()
 
     def _apply_contract_body(self, c, fi, env, spec_fr, st, fr, node):
-        if getattr(fr, "in_comp", 0) > 0 and c.modifies and not c.opts.get("deterministic") and fr.kind != "spec":
-            raise Untranslatable(f"call of {c.key.split('::')[-1]} (which modifies the heap) inside a comprehension")
+        comp_impure = getattr(fr, "in_comp", 0) > 0 and c.modifies and not c.opts.get("deterministic") and fr.kind != "spec"
+        if comp_impure:
+            # heap-modifying call inside a comprehension: iteration j starts in an arbitrary heap G(j) (for the attributes the callee
+            # modifies) and ends in F(j); the result is a function R(j).  After the comprehension those attributes are havocked.
+            if not getattr(fr, "comp_index", None):
+                raise Untranslatable("heap-modifying call in a comprehension without an index")
+            j0 = fr.comp_index[-1]
+            site = next(self.fresh_n)
+            arr_sort = z3.ArraySort(self.voc.Val, self.voc.Val)
+            for attr in c.modifies:
+                if attr.startswith("*"):
+                    raise Untranslatable("effectful call inside a comprehension")
+                if self.is_write_once(attr, c):
+                    continue
+                g = z3.Function(f"Hpre_{attr}!{site}", z3.IntSort(), arr_sort)
+                st.heap[attr] = g(j0)
+                fr.comp_modified.add(attr)
         pre_st = St(st.guards, st.facts, env, st.heap, st.eff, st.epoch)
         # preconditions are obligations of the caller
         n_pre = 0
@@ -549,6 +588,12 @@ class ApplyMixin:
             if attr == "*effects":
                 st.eff = self.fresh("eff", z3.IntSort())
                 continue
+            if self.is_write_once(attr, c):
+                continue
+            if comp_impure:
+                fpost = z3.Function(f"Hpost_{attr}!{site}", z3.IntSort(), z3.ArraySort(self.voc.Val, self.voc.Val))
+                st.heap[attr] = fpost(j0)
+                continue
             st.heap[attr] = self.fresh(f"H_{attr}", z3.ArraySort(self.voc.Val, self.voc.Val))
         # constructors write their own object only (verified at the definition: frame obligation `init-frame.<attr>`)
         if c.opts.get("modifies_self") and "self" in env and env["self"].t is not None:
@@ -570,6 +615,8 @@ class ApplyMixin:
             # externals are functions of their arguments only; repository functions may read the heap
             ep = z3.IntVal(0) if (c.assumed and not c.opts.get("reads_heap")) else self.heap_epoch(st)
             res_t = fsym(*[self.box(a) for a in env.values()], ep)
+        elif comp_impure:
+            res_t = z3.Function(f"Rcomp!{site}", z3.IntSort(), self.voc.Val)(j0)
         else:
             res_t = self.fresh("res")
         result = self.with_sort(res_t, rsort)
@@ -586,6 +633,16 @@ class ApplyMixin:
         if c.assumed:
             self.used_assumptions.add(f"assumed contract of external {c.key}")
         return result
+
+    def is_write_once(self, attr, c):
+        """a write-once attribute is assigned by the constructor of its own object only (obligation write-once@<attr>); its value
+        for an object is therefore a function of the object, and callers of anything but that constructor keep the array"""
+        if attr not in self.side.write_once:
+            return False
+        if attr in (c.opts.get("modifies_self") or ()):
+            return False
+        self.used_assumptions.add(f"attribute .{attr} is write-once (obligation write-once@{attr}): not havocked across calls that are not its constructor; computed setattr sites of models/string_converters.py exempted by a recorded justification")
+        return True
 
     def heap_epoch(self, st: St):
         """an integer that changes whenever any heap array changed: results of pure calls are functions of it"""
@@ -644,8 +701,10 @@ class ApplyMixin:
                 continue
             st.facts.append(x.t != obj)
             if x.pt in ("list", "tuple"):
-                j = self.bv("fj", z3.IntSort())
-                st.facts.append(z3.ForAll([j], v.sat(x.t, j) != obj, patterns=[v.sat(x.t, j)]))
+                from .sym import pattern_safe
+                if pattern_safe(x.t):
+                    j = self.bv("fj", z3.IntSort())
+                    st.facts.append(z3.ForAll([j], v.sat(x.t, j) != obj, patterns=[v.sat(x.t, j)]))
         # all pre-existing symbolic inputs have born == 0 (assumed in the function's initial state)
 
     def call_closure(self, fnode: ast.FunctionDef, args, kwargs, st, fr, node) -> SV:
@@ -672,6 +731,20 @@ class ApplyMixin:
             merged.env[k] = x
         st.guards, st.facts, st.heap, st.eff, st.env = merged.guards, merged.facts, merged.heap, merged.eff, merged.env
         return val
+
+
+def ite_depth(t, _memo=None):
+    """nesting depth of if-then-else inside a term (DAG-aware)"""
+    memo = {} if _memo is None else _memo
+    k = t.get_id()
+    if k in memo:
+        return memo[k]
+    d = 0
+    if z3.is_app(t):
+        sub = max([ite_depth(c, memo) for c in t.children()] + [0])
+        d = sub + (1 if t.decl().kind() == z3.Z3_OP_ITE else 0)
+    memo[k] = d
+    return d
 
 
 def o_with_env(o: Outcome, env):
